@@ -2,6 +2,7 @@ package core
 
 import (
 	"context"
+	"os"
 	"fmt"
 	"net"
 	"runtime"
@@ -49,8 +50,9 @@ type World struct {
 	Net        *Net
 	Controlled bool
 
-	start time.Time
-	kick  chan struct{}
+	start     time.Time
+	kick      chan struct{}
+	driverGid uint64
 
 	mu     sync.Mutex
 	events []*timedEvent
@@ -77,6 +79,7 @@ type World struct {
 func NewWorld(t *testing.T, seed uint64, trace []int, stalls []Stall, controlled bool) *World {
 	w := &World{T: t, Ch: NewChooser(seed, trace), Log: NewEventLog(), Controlled: controlled,
 		start: time.Now(), kick: make(chan struct{}, 1), Probes: map[string]int{}, States: map[uint64]struct{}{}}
+	w.driverGid = Gid()
 	w.Sched = newSched(w, stalls)
 	w.Net = newNet(w)
 	simhook.Sched = w
@@ -94,8 +97,15 @@ func (w *World) Dial(ctx context.Context, network, host string) (net.Conn, error
 func (w *World) Now() time.Duration { return time.Since(w.start) }
 
 func (w *World) logf(f string, a ...any) {
-	w.Log.Logf("%d %s", w.Now().Microseconds(), fmt.Sprintf(f, a...))
+	if Gid() == w.driverGid {
+		w.Log.Logf("%d %s", w.Now().Microseconds(), fmt.Sprintf(f, a...))
+	} else {
+		w.Log.Async("%d %s", w.Now().Microseconds(), fmt.Sprintf(f, a...))
+	}
 }
+
+// Tag names the calling workload goroutine (canonical ordering of simultaneous lock requests).
+func (w *World) Tag(name string) { w.Sched.TagGoroutine(name, true) }
 
 // Logf records an event with the simulated time stamp.
 func (w *World) Logf(f string, a ...any) { w.logf(f, a...) }
@@ -149,12 +159,13 @@ func (w *World) Visit(h uint64) { w.mu.Lock(); w.States[h] = struct{}{}; w.mu.Un
 
 func (w *World) Violate(oracle, class, detail string) {
 	w.mu.Lock()
-	defer w.mu.Unlock()
 	if len(w.Violations) >= 8 {
+		w.mu.Unlock()
 		return
 	}
 	w.Violations = append(w.Violations, Violation{Oracle: oracle, Class: class, Detail: detail, AtUs: w.Now().Microseconds(), Step: w.Steps})
-	w.Log.Logf("VIOLATION %s %s %s", oracle, class, detail)
+	w.mu.Unlock()
+	w.logf("VIOLATION %s %s %s", oracle, class, detail)
 }
 
 func (w *World) enabled(now time.Duration) []Action {
@@ -169,20 +180,17 @@ func (w *World) enabled(now time.Duration) []Action {
 			acts = append(acts, Action{Label: "grant " + mode + " " + r.Role + " @" + r.Site, Do: func() { w.Sched.Grant(r) }})
 		}
 	}
-	w.Net.mu.Lock()
-	conns := append([]*Conn{}, w.Net.Conns...)
-	w.Net.mu.Unlock()
-	for _, c := range conns {
+	for _, c := range w.Net.ordered() {
 		c := c
 		c.mu.Lock()
 		c.assignLatencies(now, w.Ch)
 		d0, d1 := c.deliverable(C2S, now), c.deliverable(S2C, now)
 		c.mu.Unlock()
 		if d0 {
-			acts = append(acts, Action{Label: fmt.Sprintf("net c2s conn=%d", c.ID), Do: func() { c.deliver(C2S, w.Ch) }})
+			acts = append(acts, Action{Label: "net c2s conn=" + c.Name, Do: func() { c.deliver(C2S, w.Ch) }})
 		}
 		if d1 {
-			acts = append(acts, Action{Label: fmt.Sprintf("net s2c conn=%d", c.ID), Do: func() { c.deliver(S2C, w.Ch) }})
+			acts = append(acts, Action{Label: "net s2c conn=" + c.Name, Do: func() { c.deliver(S2C, w.Ch) }})
 		}
 	}
 	w.mu.Lock()
@@ -238,6 +246,7 @@ func (w *World) nextWake(now time.Duration) (time.Duration, bool) {
 func (w *World) Run(done func() bool, maxSteps int, horizon time.Duration) bool {
 	for {
 		synctest.Wait()
+		w.Log.Flush()
 		now := w.Now()
 		if w.OnQuiescent != nil {
 			w.OnQuiescent(now)
@@ -276,6 +285,11 @@ func (w *World) Run(done func() bool, maxSteps int, horizon time.Duration) bool 
 		}
 		w.Steps++
 		w.logf("#%d [%d] %s", w.Steps, len(acts), acts[k].Label)
+		if w.Log.verbose {
+			for i, a := range acts {
+				fmt.Fprintf(os.Stderr, "      (%d) %s\n", i, a.Label)
+			}
+		}
 		acts[k].Do()
 	}
 }
